@@ -529,6 +529,9 @@ impl World {
             None
         } else {
             let errno = menu[c - 1];
+            // a system call that fails has taken time too (a connect that ends in EADDRINUSE, a
+            // send that the stack refuses): one delivery step of virtual time
+            vclock::advance(self.cfg.delta_ns);
             self.faults_injected.push((self.op_count, op, errno));
             self.resolve_attempt(sock, AttemptOutcome::Fault { errno, op });
             Some(errno)
